@@ -26,7 +26,7 @@ rm -rf /tmp/ev_${id}_xdg $run
 echo "SEED $id apply=$rc_apply build=$rc_build unit=$rc_unit demo_clean=$rc_clean demo_changed=$rc_changed ($((t1-t0))s)"
 caught=$(cd /verif && python3 tools/mutant.py --patch $dst/patch.diff $checks 2>&1 | tee /tmp/ev_${id}_checks.log | grep "CAUGHT-BY")
 echo "SEED $id $caught"
-python3 - <<PY
+cd /verif; python3 - <<PY
 import json
 json.dump(dict(property="$id", apply_rc=$rc_apply, build_rc=$rc_build, unit_tests_rc=$rc_unit, demo_on_unchanged_rc=$rc_clean, demo_on_changed_rc=$rc_changed,
   confirmed=bool($rc_apply==0 and $rc_build==0 and $rc_unit==0 and $rc_clean==0 and $rc_changed!=0),
